@@ -43,8 +43,12 @@ def derivative(poly: PolyLike, *diffvars: Union[ndpoly, str, int]) -> ndpoly:
             idx = diffvar
         else:
             diffvar = numpoly.aspolynomial(diffvar)
+            # zero terms (kept under `retain_coefficients`) do not count
+            exponents, _ = numpoly.remove_redundant_coefficients(
+                diffvar.exponents, diffvar.coefficients
+            )
             exponents, names = numpoly.remove_redundant_names(
-                diffvar.exponents, diffvar.names
+                exponents, diffvar.names
             )
             assert names is not None and len(names) == 1, "one at the time"
             assert numpy.all(exponents == 1), "derivative variable assumes singletons"
